@@ -462,51 +462,16 @@ func GuardEdges(fn *ssa.Function, cmps []Cmp, bf []BoolFn) (guards map[prog.Edge
 		if iff == nil || len(b.Succs) != 2 {
 			continue
 		}
-		// a short-circuit result stored in a boolean: x := a && b; if x { … }
+		// a short-circuit result stored in a boolean: x := a && (b || c); if x { … } — a phi of booleans,
+		// possibly nested; impliedBy walks it
 		if ph, ok := iff.Cond.(*ssa.Phi); ok {
-			if isAnd, conds, ok := boolPhi(ph); ok {
-				anyT, allF := "", true
-				var fs []string
-				for _, c := range conds {
-					if d, ok := holdsOn(c.V, c.Neg); ok && anyT == "" {
-						anyT = d
-					}
-					if d, ok := holdsOn(c.V, !c.Neg); ok {
-						fs = append(fs, d)
-					} else {
-						allF = false
-					}
-				}
+			if _, _, ok := boolPhi(ph); ok {
 				tEdge, fEdge := prog.Edge{From: b, To: b.Succs[0]}, prog.Edge{From: b, To: b.Succs[1]}
-				if isAnd {
-					// true: every conjunct holds; false: some conjunct fails
-					if anyT != "" {
-						guards[tEdge] = "true edge of a conjunction containing " + anyT
-					}
-					if allF && len(fs) > 0 {
-						guards[fEdge] = "false edge of a conjunction whose every failing conjunct gives " + strings.Join(fs, " or ")
-					}
-				} else {
-					// or-phi: true: some disjunct holds; false: every disjunct fails
-					allT := true
-					var ts []string
-					anyF := ""
-					for _, c := range conds {
-						if d, ok := holdsOn(c.V, c.Neg); ok {
-							ts = append(ts, d)
-						} else {
-							allT = false
-						}
-						if d, ok := holdsOn(c.V, !c.Neg); ok && anyF == "" {
-							anyF = d
-						}
-					}
-					if allT && len(ts) > 0 {
-						guards[tEdge] = "true edge of a disjunction whose every disjunct gives " + strings.Join(ts, " or ")
-					}
-					if anyF != "" {
-						guards[fEdge] = "false edge of a disjunction containing the negation " + anyF
-					}
+				if d, ok := impliedBy(ph, true, holdsOn, 0); ok {
+					guards[tEdge] = "true edge of a stored short-circuit condition: " + d
+				}
+				if d, ok := impliedBy(ph, false, holdsOn, 0); ok {
+					guards[fEdge] = "false edge of a stored short-circuit condition: " + d
 				}
 				continue
 			}
@@ -564,9 +529,6 @@ func boolPhi(ph *ssa.Phi) (isAnd bool, conds []condLit, ok bool) {
 			}
 			continue
 		}
-		if _, nested := e.(*ssa.Phi); nested {
-			return false, nil, false
-		}
 		conds = append(conds, condLit{e, false})
 	}
 	if nFalse > 0 && nTrue == 0 {
@@ -576,6 +538,70 @@ func boolPhi(ph *ssa.Phi) (isAnd bool, conds []condLit, ok bool) {
 		return false, conds, true
 	}
 	return false, nil, false
+}
+
+// impliedBy: does the boolean value v having the given outcome imply one of the
+// wanted comparisons (holdsOn(cond, neg) answers for a leaf condition being true
+// (neg=false) or false (neg=true))? Stored short-circuit results (phis of
+// booleans) are walked: a conjunction that is true makes every conjunct true, one
+// that is false makes some conjunct false — and dually for a disjunction.
+func impliedBy(v ssa.Value, outcome bool, holdsOn func(ssa.Value, bool) (string, bool), depth int) (string, bool) {
+	if ph, isPhi := v.(*ssa.Phi); isPhi && depth < 6 {
+		if isAnd, lits, ok := boolPhi(ph); ok {
+			// all: the outcome fixes every literal; any: it fixes at least one, unknown which
+			all := isAnd == outcome
+			var ds []string
+			for _, l := range lits {
+				// literal = (V is !Neg); under `all` the literal has the value `outcome`, so V is outcome XOR Neg
+				d, ok := impliedBy(l.V, outcome != l.Neg, holdsOn, depth+1)
+				if all && ok {
+					return d, true
+				}
+				if !all {
+					if !ok {
+						return "", false
+					}
+					ds = append(ds, d)
+				}
+			}
+			if !all && len(ds) > 0 {
+				return "each of " + strings.Join(uniq(ds), " / "), true
+			}
+			return "", false
+		}
+	}
+	return holdsOn(v, !outcome)
+}
+
+// relBits: the relations between L and R that are possible when the boolean v has
+// the given outcome; compared reports whether v compares the two roles at all.
+func relBits(v ssa.Value, outcome bool, L, R VP, depth int) (uint8, bool) {
+	if ph, isPhi := v.(*ssa.Phi); isPhi && depth < 6 {
+		if isAnd, lits, ok := boolPhi(ph); ok {
+			all := isAnd == outcome
+			bits, compared := uint8(0), false
+			if all {
+				bits = bitAll
+			}
+			for _, l := range lits {
+				bl, c := relBits(l.V, outcome != l.Neg, L, R, depth+1)
+				compared = compared || c
+				if all {
+					bits &= bl
+				} else {
+					bits |= bl
+				}
+			}
+			return bits, compared
+		}
+	}
+	if r, ok := relOnTrue(v, L, R, nil); ok && r != RelNone {
+		if !outcome {
+			r = negRel(r)
+		}
+		return satBits(r), true
+	}
+	return bitAll, false
 }
 
 // guardedSite decides one O2 obligation: every path from the entry of the site's
@@ -777,10 +803,11 @@ func relFlow(fn *ssa.Function, L, R VP, removed map[*ssa.BasicBlock]bool) (map[*
 			outs[i] = in
 		}
 		if iff := prog.IfOf(b); iff != nil && len(b.Succs) == 2 {
-			if r, ok := relOnTrue(iff.Cond, L, R, nil); ok && r != RelNone {
+			if bt, c := relBits(iff.Cond, true, L, R, 0); c {
+				bf, _ := relBits(iff.Cond, false, L, R, 0)
 				compared = true
-				outs[0] = in & satBits(r)
-				outs[1] = in & satBits(negRel(r))
+				outs[0] = in & bt
+				outs[1] = in & bf
 			}
 		}
 		for i, s := range b.Succs {
